@@ -34,6 +34,12 @@ func genTree(r *rand.Rand, depth int, cnt *int, parent *drive.Cmd, name string, 
 		t.Prog.Spec = ""
 		t.Prog.AST = nil
 	}
+	if parent != nil && r.Intn(10) == 0 {
+		// a sub-command that declares -h / --help (or -h, --host as in doc.go) itself: the tokens stay help requests
+		t.Prog.Opts = append(t.Prog.Opts, &OptDecl{Names: [][]string{{"h", "host"}, {"h", "help"}, {"help"}}[r.Intn(3)], Flag: r.Intn(2) == 0})
+		t.Prog.Spec = ""
+		t.Prog.AST = nil
+	}
 	if depth > 0 && r.Intn(6) == 0 {
 		// a "command group": declares nothing of its own, only there to be traversed
 		t.Prog = &Prog{}
@@ -370,6 +376,22 @@ func checkRun(c *core.Ctx, e texp, o *drive.Obs, version bool) bool {
 			c.Violation(fmt.Sprintf("level %s: its variables do not hold a derivation of its own tokens %q: %s", t.Path(), e.segs[i], bindStr(lp, b)), nil, nil)
 			return false
 		}
+	}
+	// a sub-command is initialised after its ancestors' own tokens were validated and bound: its initializer already
+	// sees what the Action will see (the pattern documented in doc.go: the child's initializer reads the parent's options)
+	for i, t := range e.path {
+		seen, ok := o.InitSeen[t.ID]
+		if i == 0 || !ok {
+			continue
+		}
+		for _, anc := range e.path[:i] {
+			lp := levelProg(anc, version)
+			if got, want := bindStr(lp, seen[anc.ID]), bindStr(lp, o.Bind[anc.ID]); got != want {
+				c.Violation(fmt.Sprintf("the initializer of %s saw the variables of %s as %s; the Action sees %s", t.Path(), anc.Path(), got, want), nil, nil)
+				return false
+			}
+		}
+		c.Inc("initializer_observations")
 	}
 	for tid, b := range o.Bind {
 		on := false
